@@ -176,7 +176,7 @@ theorem parRoot_eq (cfg : Cfg) (forest : List Node) (fuel : Nat) (r : Node) :
   | symlink l => simp only []; rw [runOne_nondir _ _ _ rfl]
   | dir d via =>
     simp only [runOne_dir, parContents_eq, View.kids]
-    cases cfg.sameFs <;> simp [devOk]
+    cases cfg.sameFs <;> simp [devOk, rootDepth]
 
 theorem parallel_eq (cfg : Cfg) (forest : List Node) (fuel : Nat) (roots : List Node) :
     parallel cfg forest fuel roots = reach cfg forest fuel roots := by
